@@ -8,6 +8,20 @@ VERIF = os.path.dirname(os.path.dirname(os.path.abspath(__file__)))
 ALL = [f"C{i:02d}" for i in range(1, 21)]
 
 CHECKS = {
+    "C14": dict(
+        category="exploration",
+        technique="bounded-exhaustive enumeration of program x fixed-form rendering (comment characters, continuation markers, labels at every place) against the free-form twin through an exact token map; classification of every free-form layout",
+        text=("Exhaustive enumeration of (program, rendering): seven canonical programs (incl. statement labels, labelled DO "
+              "with CONTINUE, shared label and labelled last statement) rendered in fixed form with a comment line using each "
+              "of C c * ! d D in every line gap, a continuation at every token boundary with each marker & 1 + $ (also with a "
+              "comment line in between), labels in columns 1-5, upper/lower case, CRLF and trailing blanks; every rendering "
+              "must be classified fixed and give the same token-keyed battery (symbols, diagnostics, definition targets, "
+              "references, hover) as the free-form rendering. Every free-form layout of C13, the same layouts without "
+              "indentation and three programs without typed declarations must be classified free."),
+        note=("Trusted: vf/layout.py renderer (fixed renderings that differ are re-checked with gfortran and skipped if "
+              "rejected; renderings exceeding column 72 are skipped). Comparison rules as in C13."),
+        design="DESIGN.md §4 C14",
+    ),
     "C13": dict(
         category="exploration",
         technique="bounded-exhaustive enumeration of program x re-layout (every statement, every token boundary) with an exact token position map, differential token-keyed battery oracle, gfortran as validity gate",
